@@ -840,6 +840,9 @@ class Mesh:
             'subdomains': subdomains,
             # the key is present only if there are oriented boundaries
             **({'orientations': orientations} if orientations else {}),
+            # the key is present only if it differs from the default
+            **({'sort_t': self.sort_t}
+               if self.sort_t != type(self).sort_t else {}),
         }
 
     @classmethod
@@ -1478,6 +1481,9 @@ class Mesh:
                 for key in data.files
                 if key[:2] == 's_'
             },
+            # optional, present only if it differs from the default
+            **({'sort_t': bool(data['sort_t'])}
+               if 'sort_t' in data.files else {}),
         )
 
     def save_npz(self, filename: str):
@@ -1496,4 +1502,6 @@ class Mesh:
             **boundaries,
             **subdomains,
             **orientations,
+            **({'sort_t': self.sort_t}
+               if self.sort_t != type(self).sort_t else {}),
         )
